@@ -207,6 +207,34 @@ func decorate(rng *rand.Rand, d *common.DWorld) map[string]any {
 		// the node must be re-delivered for the CSINode limit to be read
 		vols++
 	}
+	// bound pods whose volume can no longer be resolved: the PVC was deleted (finalizer removed), its PV is gone, or its
+	// StorageClass is gone. Pending pods like these are rejected by validation; bound ones on candidates / deleting nodes
+	// reach the scheduler's volume topology lookup unvalidated.
+	var broken []string
+	for j, kind := range []string{"pvc-gone", "pv-gone", "sc-gone"} {
+		if rng.Intn(3) != 0 {
+			continue
+		}
+		n := pickNode()
+		if n == nil {
+			break
+		}
+		claim := fmt.Sprintf("broken-%d", j)
+		switch kind {
+		case "pv-gone":
+			sc := "sc-wait"
+			e.Apply(&corev1.PersistentVolumeClaim{ObjectMeta: metav1.ObjectMeta{Name: claim, Namespace: "default"},
+				Spec: corev1.PersistentVolumeClaimSpec{StorageClassName: &sc, VolumeName: "pv-missing"}, Status: corev1.PersistentVolumeClaimStatus{Phase: corev1.ClaimLost}})
+		case "sc-gone":
+			sc := "sc-missing"
+			e.Apply(&corev1.PersistentVolumeClaim{ObjectMeta: metav1.ObjectMeta{Name: claim, Namespace: "default"}, Spec: corev1.PersistentVolumeClaimSpec{StorageClassName: &sc}})
+		}
+		p := gen.Pod(d.NextPodName("b"), 10, 8, gen.WithLabels("app", "db"), gen.WithOwner("StatefulSet", "db"), gen.Bound(n.Name, e.Clock.Now()))
+		p.Spec.Volumes = []corev1.Volume{{Name: "data", VolumeSource: corev1.VolumeSource{PersistentVolumeClaim: &corev1.PersistentVolumeClaimVolumeSource{ClaimName: claim}}}}
+		e.Apply(p)
+		broken = append(broken, kind)
+	}
+	desc["bound_pods_with_unresolvable_volume"] = broken
 	// PDBs
 	var pdbs []string
 	if rng.Intn(3) == 0 {
